@@ -115,6 +115,10 @@ func (e *Engine) Run(env *core.Env, run int, res *core.Result) *core.Violation {
 			return nil
 		}
 		c.Signature, c.Message = sig, msg
+		if died {
+			// replaying this case kills the process: Replay does it in a child
+			c.Trace = []string{sandboxMark}
+		}
 		return &core.Violation{Signature: sig, Message: msg, Case: c}
 	}
 	env.J.Begin(c)
@@ -219,6 +223,18 @@ func (e *Engine) Replay(env *core.Env, c *core.Case) (string, string, []string) 
 	sc := &Scenario{}
 	if err := json.Unmarshal(c.Body, sc); err != nil {
 		return c.Property + "/harness-bad-case", err.Error(), nil
+	}
+	if len(c.Trace) > 0 && c.Trace[0] == sandboxMark && os.Getenv("VERIF_QUIET_REPLAY") == "" {
+		// a process death found in a sandboxed run: reproduce it in a child and
+		// report the child's fate
+		cc := *c
+		cc.Trace = nil
+		testName := e.TestName
+		sig, msg, _, err := runInChild(env, &cc, testName)
+		if err != nil {
+			return c.Property + "/harness-trouble", err.Error(), nil
+		}
+		return sig, msg, nil
 	}
 	var tape *core.Tape
 	if c.GenTape {
@@ -364,6 +380,8 @@ func knownDeathListed(env *core.Env) bool {
 	}
 	return false
 }
+
+const sandboxMark = "sandboxed: replaying this case kills the process; Replay runs it in a child process"
 
 var reSig = regexp.MustCompile(`REPLAY signature=(\S+)\n\s*([^\n]*)`)
 var rePanic = regexp.MustCompile(`(?m)^(panic: .*|fatal error: .*|WARNING: DATA RACE|node log: .*)$`)
